@@ -184,7 +184,7 @@ def build(repo, classes=None):
     return rows
 
 
-def to_coq(rows, leak_rows=()):
+def to_coq(rows, leak_rows=(), noexc=((), 0), sites=()):
     def sl(l): return '[' + '; '.join('"%s"' % x for x in l) + ']'
     out = ['(* GENERATED by props/C15/vtable.py from the clang AST of /repo/include/momo (do not edit).',
            '   (class, public method, version cells certainly bumped on some path = reachable in every instantiation,',
@@ -208,6 +208,13 @@ def to_coq(rows, leak_rows=()):
     out.append(';\n'.join('  ("%s", "%s", [%s])' % (c, m.replace('"', "'"), '; '.join('(%s, %s)' % (sl2(w), sl2(b)) for w, b in sts))
                           for c, m, sts in PATH_FACTS))
     out.append('].')
+    out.append('(* noexcept functions reachable from a client-visible operator of a handle class that call a checked (may-throw) handle operation *)')
+    out.append('Definition noexcept_checked_paths : list (string * string * string * string) := [' +
+               '; '.join('("%s", "%s", "%s", "%s")' % r for r in noexc[0]) + '].')
+    out.append('Definition client_operators_scanned : nat := %d.' % noexc[1])
+    out.append('(* entry points that take row ranges / read the raws of a selection directly: does the body contain the version check? *)')
+    out.append('Definition stale_check_sites : list (string * string * bool) := [' +
+               '; '.join('("%s", "%s", %s)' % (c, m.replace('"', "'"), 'true' if ok else 'false') for c, m, ok in sites) + '].')
     return '\n'.join(out) + '\n'
 
 
@@ -480,3 +487,98 @@ def leaks(repo, classes=None):
                 cells = sorted({PATH_CELLS[cls][j] for s in bad for j in range(ncells) if (s >> (2 * j)) & 1 and not (s >> (2 * j + 1)) & 1})
                 out.append((cls, '%s(%s) [%s]' % (name, re.sub(r'\(lambda at [^)]*\)', 'lambda', ps), ', '.join(cells))))
     return sorted(set(out))
+
+
+
+# ------------------------------------------------------------------------------------------------------------------
+# Two more generated fact families (one per fixed defect class):
+#  (a) noexcept_checked_paths: from a client-visible operator of a handle class (++, --, ->, *, +=) no function declared `noexcept` may be
+#      reachable (inside the class) that itself calls a CHECKED, non-noexcept operation of a handle (operator-> / ++ / ... / Check / GetRaw)
+#      or contains a throw: the std::invalid_argument of exception mode would hit the noexcept boundary = std::terminate (fix f1f44c5).
+#  (b) stale_check_sites: the entry points that take row ranges / work on the raws of a selection directly must contain the version check
+#      (`rowRef.GetRaw()` as a member call, resp. `VersionKeeper::Check()`) (fix f5d4e4e).
+CHECKED_NAMES = ('operator->', 'operator*', 'operator++', 'operator--', 'operator+=', 'operator-=', 'Check', 'ptCheck', 'GetRaw')
+CLIENT_OPS = ('operator++', 'operator--', 'operator->', 'operator*', 'operator+=', 'operator-=')
+HANDLE_DUMPS = [('INST_HASHSET', 'HashSet', ('HashSetConstIterator', 'HashSetConstPosition')),
+                ('INST_TREESET', 'TreeSet', ('TreeSetConstIterator',)),
+                ('INST_HASHMULTIMAP', 'HashMultiMap', ('HashMultiMapIterator', 'HashMultiMapKeyIterator')),
+                ('INST_DATATABLE', 'DataRawIterator', ('DataRawIterator',)), ('INST_DATATABLE', 'DataRowIterator', ('DataRowIterator',))]
+
+
+def _specs(objs, names):
+    out = []
+    for o in objs:
+        cands = [o] if o.get('kind') == 'ClassTemplateSpecializationDecl' else \
+            [m for m in o.get('inner', []) if m.get('kind') == 'ClassTemplateSpecializationDecl'] if o.get('kind') == 'ClassTemplateDecl' else []
+        for s in cands:
+            if s.get('name') in names and any(m.get('kind') in ('CXXMethodDecl', 'FunctionTemplateDecl') for m in s.get('inner', [])):
+                out.append(s)
+    return out
+
+
+def _is_noexcept(d):
+    return 'noexcept' in (d.get('type', {}).get('qualType', '') or '')
+
+
+def noexcept_checked_paths(repo):
+    rows = []; scanned = 0
+    tu = os.path.join(os.path.dirname(os.path.abspath(__file__)), 'inst.cpp')
+    for define, flt, names in HANDLE_DUMPS:
+        cfg = {'tu': tu, 'filter': flt, 'class': flt, 'defines': [define], 'includes': [os.path.join(repo, 'include')]}
+        for spec in _specs(cxx2coq.load_objs(cxx2coq.dump_ast(cfg, repo)), names):
+            body = {}
+            for m in spec.get('inner', []):
+                if m.get('kind') in ('CXXMethodDecl', 'FunctionTemplateDecl', 'CXXConstructorDecl'):
+                    for b in bodies(m) if m.get('kind') != 'CXXConstructorDecl' else ([m] if any(y.get('kind') == 'CompoundStmt' for y in m.get('inner', [])) else []):
+                        body[b['id']] = b
+            calls = {}; bad = {}
+            for i, b in body.items():
+                c = set(); offenders = []
+                for n in walk(b):
+                    k = n.get('kind')
+                    if k == 'MemberExpr' and n.get('referencedMemberDecl') in body:
+                        c.add(n['referencedMemberDecl'])
+                    if k in ('MemberExpr', 'DeclRefExpr'):
+                        nm = n.get('name') or (n.get('referencedDecl') or {}).get('name')
+                        ty = (n.get('referencedDecl') or {}).get('type', {}).get('qualType') if k == 'DeclRefExpr' else None
+                        if k == 'DeclRefExpr' and (n.get('referencedDecl') or {}).get('id') in body:
+                            c.add(n['referencedDecl']['id'])
+                        if nm in CHECKED_NAMES:
+                            fty = ty if ty is not None else ''
+                            if k == 'MemberExpr':
+                                # the member function's own type is not printed on a bound MemberExpr: look it up in this class, else assume checked
+                                ref = n.get('referencedMemberDecl')
+                                fty = body[ref].get('type', {}).get('qualType', '') if ref in body else '()'
+                            if '(' in fty and 'noexcept' not in fty:
+                                offenders.append(nm)
+                    if k == 'CXXThrowExpr':
+                        offenders.append('throw')
+                calls[i] = c; bad[i] = offenders
+            for i, b in body.items():
+                if b.get('name') in CLIENT_OPS and not _is_noexcept(b):
+                    scanned += 1
+                    seen = set(); st = [i]
+                    while st:
+                        j = st.pop()
+                        if j in seen: continue
+                        seen.add(j); st.extend(calls[j])
+                        if j != i and _is_noexcept(body[j]) and bad[j]:
+                            rows.append((spec.get('name'), b.get('name'), body[j].get('name'), ','.join(sorted(set(bad[j])))))
+    return sorted(set(rows)), scanned
+
+
+def stale_check_sites(repo):
+    rows = []
+    tu = os.path.join(os.path.dirname(os.path.abspath(__file__)), 'inst.cpp')
+    def has_member(b, name):
+        return any(n.get('kind') == 'MemberExpr' and n.get('name') == name for n in walk(b))
+    for flt, names, sites in (('DataSelection', ('DataSelection',), {'pvSort': 'Check|pvMakeConstRowReference', 'pvGroup': 'Check', 'pvBinarySearch': 'Check', 'Add': 'GetRaw'}),
+                              ('DataTable', ('DataTable',), {'pvAssign': 'GetRaw', 'pvRemove': 'GetRaw|pvMakeConstRowReference'})):
+        cfg = {'tu': tu, 'filter': flt, 'class': flt, 'defines': ['INST_DATATABLE'], 'includes': [os.path.join(repo, 'include')]}
+        for spec in _specs(cxx2coq.load_objs(cxx2coq.dump_ast(cfg, repo)), names):
+            for m in spec.get('inner', []):
+                if m.get('kind') in ('CXXMethodDecl', 'FunctionTemplateDecl') and m.get('name') in sites:
+                    for b in bodies(m):
+                        ok = any(has_member(b, alt) for alt in sites[m['name']].split('|'))
+                        rows.append((spec.get('name'), '%s(%s)' % (m['name'], re.sub(r'\(lambda at [^)]*\)', 'lambda', params_of(b, flt)[0])[:120]), ok))
+    return sorted(set(rows))
